@@ -277,6 +277,7 @@ def _gen_tokcfg(rng):
     else:
         lg, ug, ln, un = "WORD", "UW", "WORD", "UW"
     lex += [[lg, "range", "az"], [ug, "range", "AZ"]]
+    decoys = []          # [final name, lexeme, value, eol]: the keyword table has an entry that must NOT apply to this token
     lower_kw, upper_kw = {}, {}
     for v, k in (("if", "IF"), ("end", "END")):
         if rng.random() < 0.65:
@@ -292,10 +293,13 @@ def _gen_tokcfg(rng):
     if lg != ln:
         if rng.random() < 0.6:
             kw.append([lg, "while", "WHILE"])
+            decoys.append([ln, "while", "while", False])
         if rng.random() < 0.3:
             kw.append([lg, "if", "LIF"])
+            decoys.append([lower_kw.get("if", ln), "if", "if", False])
     if ug != un and rng.random() < 0.3:
         kw.append([ug, "FOO", "UFOO"])
+        decoys.append([un, "FOO", "FOO", False])
     for v in ["a", "ab", "foo", "x", "zz", "while", "if", "end"]:
         add(lower_kw.get(v, ln), v)
     for v in ["A", "FOO", "XY", "IF", "END"]:
@@ -313,6 +317,7 @@ def _gen_tokcfg(rng):
         num_kw["0"] = "ZERO"
     if ng != nn and rng.random() < 0.4:
         kw.append([ng, "7", "SEVEN"])          # decoy
+        decoys.append([nn, "7", "7", False])
     for v in ["0", "7", "12", "345"]:
         add(num_kw.get(v, nn), v)
     # quoted strings: the value excludes the quotes
@@ -332,9 +337,12 @@ def _gen_tokcfg(rng):
             dkw["x y"] = "XY"
         if dn != "DQ" and rng.random() < 0.4:
             kw.append(["DQ", "x", "DQX"])      # decoy
+            decoys.append([dn, '"x"', "x", False])
         skw = dkw if sn == dn else {}
         for v in ["", "x", "x y", "a+b", "if"]:
             add(dkw.get(v, dn), '"' + v + '"', v)
+        if "if" in lower_kw:
+            decoys.append([dn, '"if"', "if", False])     # (WORD, if) is a keyword, (STRING, if) is not
         for v in ["", "q", "x y", "if"]:
             add(skw.get(v, sn), "'" + v + "'", v)
     # one-character literals, renamed to themselves or not; '+' may be a keyword of its own class
@@ -372,6 +380,7 @@ def _gen_tokcfg(rng):
             mn = "COMMENT"
         if rng.random() < 0.4:
             kw.append([mn, "if", "SPANKW"])    # decoy: keywords are not applied to span tokens
+            decoys.append([mn, "/*if*/", "if", False])
         # (lexeme, value): the value is the body; the text of a line after the opener and of whole lines inside is taken
         # from the rstripped lines, blank parts are dropped
         for lx, v in (("/* c */", " c "), ("/**/", ""), ("/*c\nd*/", "c\nd"), ("/*\nq */", "q "), ("/*if*/", "if")):
@@ -383,13 +392,20 @@ def _gen_tokcfg(rng):
     default = [t for t in ["SPACE", "COMMENT"] if t in terms]
     subst = sorted(n for n in prod if n not in default and n != space and n not in comment_names)
     r = rng.random()
-    if r < 0.5:
+    if r < 0.45:
         skip = None
-    elif r < 0.6:
+    elif r < 0.53:
         skip = list(default) + ([space] if space not in default else [])
-    elif r < 0.8:
-        skip = list(default) + ([space] if space not in default else []) + [rng.choice(subst)]
-    elif r < 0.9:
+    elif r < 0.77:
+        # a substantive class is skipped: preferably a class that has keywords (its keywords are tokens of their own and
+        # stay) or a keyword token (its base class stays)
+        weighted = list(subst)
+        for base, kws in ((ln, lower_kw), (un, upper_kw), (nn, num_kw)):
+            if kws and base in subst:
+                weighted += [base] * 4
+            weighted += [k for k in sorted(set(kws.values())) if k in subst] * 2
+        skip = list(default) + ([space] if space not in default else []) + [rng.choice(weighted)]
+    elif r < 0.86:
         skip = [space]                                   # comments are terminals of the grammar
     elif r < 0.96:
         skip = [t for t in default if t != space]        # white space is NOT skipped ([] or [COMMENT])
@@ -397,7 +413,7 @@ def _gen_tokcfg(rng):
         renamed = [a for a, b in syn if a not in terms]
         skip = list(default) + ([rng.choice(renamed)] if renamed else [])   # a pattern group name that is no token name: GrammarError
     cfg["skip"] = skip
-    info = {"prod": prod, "space": space, "comments": comment_names, "skipset": _cfg_skipset(cfg),
+    info = {"prod": prod, "space": space, "comments": comment_names, "skipset": _cfg_skipset(cfg), "decoys": decoys,
             "bases": {"lower": (ln, lower_kw), "upper": (un, upper_kw), "num": (nn, num_kw)}}
     return cfg, info
 
@@ -419,9 +435,10 @@ def _glue_ok(a, b):
     return _char_class(a[-1]) != _char_class(b[0])
 
 
-def _render(rng, info, items):
+def _render(rng, info, items, forced=None):
     """items: [[name, value, lexeme, eol], ...] -> (text, all tokens [[name, value], ...] in order, white space and
-    comments included where they are tokens of the text)"""
+    comments included where they are tokens of the text); forced: a SKIPPED token [name, lexeme, value, eol] that
+    is put between two items (white space must be skipped then)"""
     skip = set(info["skipset"])
     space = info["space"]
     space_skipped = space in skip
@@ -442,8 +459,8 @@ def _render(rng, info, items):
                 pieces.append("")
             else:
                 pieces.append(rng.choice([" ", " ", "  ", "\t", "\n", " \n  ", "\n\n"]))
-            if skipped_comments and rng.random() < 0.2:
-                n, (lx, v, eol) = rng.choice(skipped_comments)
+            if (skipped_comments and rng.random() < 0.2) or force_here:
+                n, (lx, v, eol) = (forced[0], forced[1:]) if force_here else rng.choice(skipped_comments)
                 if not pieces[-1]:
                     pieces.append(" ")
                 pieces.append(lx)
@@ -465,8 +482,10 @@ def _render(rng, info, items):
         return "".join(pieces)
 
     prev = None
+    force_at = rng.randint(0, len(items)) if forced is not None and space_skipped else -1
     for i, (name, value, lexeme, eol) in enumerate(items):
         full_extra = []
+        force_here = (i == force_at)
         out.append(separator(prev, lexeme, i == 0))
         full += full_extra
         out.append(lexeme)
@@ -475,6 +494,7 @@ def _render(rng, info, items):
         prev = lexeme
     # tail: trailing white space is stripped by the tokenizer; a skipped comment may follow
     full_extra = []
+    force_here = (force_at == len(items))
     if space_skipped:
         out.append(separator(prev, None, not items))
     elif rng.random() < 0.3:
@@ -534,9 +554,10 @@ def _tok_grammar(rng, info):
     # rename the terminals a, b, ... to token names of the configuration; keywords and their base classes first
     pref = []
     for base, kws in info["bases"].values():
-        if base in avail and kws:
-            pref.append(base)
-            pref += [k for k in sorted(set(kws.values())) if k in avail]
+        if kws:
+            if base in avail:
+                pref.append(base)
+            pref += [k for k in sorted(set(kws.values())) if k in avail]      # also when the base class itself is skipped
     rest = [n for n in avail if n not in pref]
     rng.shuffle(rest)
     if rng.random() < 0.7:
@@ -593,8 +614,8 @@ def _gen_tok_session(rng):
     g = _tok_grammar(rng, info)
     texts, extra = [], []
 
-    def add_text(items, lexerr=False):
-        text, full = _render(rng, info, items)
+    def add_text(items, lexerr=False, forced=None):
+        text, full = _render(rng, info, items, forced)
         toks = [t for t in full if t[0] not in set(info["skipset"])]
         if lexerr:
             # a character no pattern matches, on a line of its own (not inside a comment or a string)
@@ -614,6 +635,25 @@ def _gen_tok_session(rng):
             c = _confuse(rng, info, items)
             if c is not None:
                 add_text(c)
+    # every decoy of the keyword table occurs in some text: as a skipped token between the items of a sentence, or in
+    # the place of a token of the same name (or anywhere, when no sentence has one)
+    skipset = set(info["skipset"])
+    for d in info["decoys"]:
+        if rng.random() < 0.25:
+            continue
+        items = _pick_items(rng, info, L.gen_sentence(rng, g))
+        if items is None:
+            continue
+        if d[0] in skipset:
+            add_text(items, forced=d)
+        else:
+            pos = [i for i, it in enumerate(items) if it[0] == d[0]]
+            it = [d[0], d[2], d[1], d[3]]
+            if pos:
+                items[rng.choice(pos)] = it
+            else:
+                items.insert(rng.randint(0, len(items)), it)
+            add_text(items)
     # sentences of other symbols, parsed with start_symbol_name
     nts = [nt for nt, _ in g["prods"]]
     for _ in range(rng.randint(0, 2)):
@@ -1051,6 +1091,10 @@ def _dedup(out):
             seen.add(sig)
             res.append((sig, msg))
     return res
+
+
+def in_model(case, obs):
+    return "__hang__" not in obs
 
 
 def nontrivial(case, obs):
